@@ -320,6 +320,8 @@ def harness(config, flavour, name='xrlmon', extra_src=(), extra_flags=(), cxx=Fa
         return harness_meson(config, name)
     if flavour == 'meson-tsan':
         return harness_meson(config, name, sanitize='thread')
+    if flavour in ('meson-release', 'meson-uchar'):
+        return harness_meson(config, name, variant=flavour[6:])
     L = lib(config, flavour)
     st = sigtab()
     hh = _harness_hash([os.path.join(HARNESS, name + ('.cpp' if cxx else '.c'))] + [os.path.join(HARNESS, s) for s in extra_src], ' '.join(extra_flags) + (compiler or ''))
@@ -434,7 +436,14 @@ def stale_inline(config):
     return os.path.join(_target('stale-inline-' + config, mk), 'xrayglob_inline.c')
 
 
-def meson_lib(config, dirty=False, sanitize=None):
+# Configurations of the PROJECT's build a user can really have besides the default one: an optimised build without assertions (distributions
+# build with buildtype=release / b_ndebug=true), and the ABI of the platforms where plain char is unsigned (Linux on arm, aarch64, ppc64le,
+# s390x, riscv64), emulated here with -funsigned-char.  The library must be the same function of its arguments in all of them.
+MESON_VARIANTS = {None: [], 'release': ['-Dbuildtype=release', '-Db_ndebug=true'], 'uchar': ['-Dc_args=-funsigned-char', '-Dcpp_args=-funsigned-char']}
+PROJECT_BUILDS = ('meson', 'meson-release', 'meson-uchar')
+
+
+def meson_lib(config, dirty=False, sanitize=None, variant=None):
     """the library exactly as the project's own build system makes it (its compiler arguments, its visibility settings, its generator run):
     a copy of the working tree (without .git) is built with meson in the cache; returns dict(dir, so, incs).  The hook guard is NOT defined.
     dirty: the copy additionally holds what an earlier in-tree (autotools) build leaves behind and .gitignore hides - a stale
@@ -455,11 +464,11 @@ def meson_lib(config, dirty=False, sanitize=None):
                 open(os.path.join(src, o), 'wb').write(b'\x7fELF stale object of an earlier build\n')
         b = os.path.join(d, 'b')
         _run(['meson', 'setup', b, src, '-Dpython-bindings=disabled', '-Dpython-numpy-bindings=disabled', '-Dfortran-bindings=disabled'] +
-             (['-Db_sanitize=' + sanitize, '-Db_lundef=false'] if sanitize else []), timeout=1800)
+             (['-Db_sanitize=' + sanitize, '-Db_lundef=false'] if sanitize else []) + MESON_VARIANTS[variant], timeout=1800)
         _run(['meson', 'compile', '-C', b, 'xrl'], timeout=3600)
         if not os.path.exists(os.path.join(b, 'src', 'libxrl.so')):
             raise BuildError('meson did not produce src/libxrl.so')
-    d = _target('lib-%s-meson%s%s' % (config, '-dirty' if dirty else '', '-' + sanitize if sanitize else ''), mk)
+    d = _target('lib-%s-meson%s%s%s' % (config, '-dirty' if dirty else '', '-' + sanitize if sanitize else '', '-' + variant if variant else ''), mk)
     return dict(dir=os.path.join(d, 'b', 'src'), so=os.path.join(d, 'b', 'src', 'libxrl.so'), cfgdir=os.path.join(d, 'b'))
 
 
@@ -513,9 +522,9 @@ def hostile_host(config):
     return dict(so=os.path.join(d, 'libhost.so'), names=json.load(open(os.path.join(d, 'names.json'))))
 
 
-def harness_meson(config, name='xrlmon', sanitize=None):
+def harness_meson(config, name='xrlmon', sanitize=None, variant=None):
     """harness program linked against meson_lib(config) (shared); the monitor sources are compiled with the plain flags"""
-    L = meson_lib(config, sanitize=sanitize)
+    L = meson_lib(config, sanitize=sanitize, variant=variant)
     st = sigtab()
     hh = _harness_hash([os.path.join(HARNESS, name + '.c')])
 
@@ -523,20 +532,21 @@ def harness_meson(config, name='xrlmon', sanitize=None):
         cmd = ['gcc', '-O2', '-g'] + (['-fsanitize=' + sanitize] if sanitize else []) + CORE + ['-I' + L['cfgdir'], '-I' + os.path.join(REPO, 'src'), '-I' + os.path.join(REPO, 'include'), '-I' + REPO, '-I' + st, '-I' + HARNESS,
                os.path.join(HARNESS, name + '.c'), '-o', os.path.join(d, name), '-L' + L['dir'], '-lxrl', '-Wl,-rpath,' + L['dir'], '-lm', '-lpthread', '-ldl']
         _run(cmd)
-    d = _target('hm-%s-%s%s-%s' % (name, config, '-' + sanitize if sanitize else '', hh), mk)
+    d = _target('hm-%s-%s%s%s-%s' % (name, config, '-' + sanitize if sanitize else '', '-' + variant if variant else '', hh), mk)
     return os.path.join(d, name)
 
 
 def locale_dir():
-    """synthetic comma-decimal locale xx_VERIF (LOCPATH)"""
+    """synthetic locales (LOCPATH): xx_VERIF - comma decimal point, ASCII character classes; xx_LATIN - decimal point '.', but the character
+    classes of ISO-8859-1 (bytes 0xC0-0xFF are letters with upper / lower case), as a host with a single-byte national locale has them"""
     def mk(d):
         src = os.path.join(VERIF, 'locale-src')
-        p = subprocess.run(['localedef', '-c', '-i', os.path.join(src, 'xx_VERIF'), '-f',
-                            os.path.join(src, 'charmap'), os.path.join(d, 'xx_VERIF')],
-                           stdout=subprocess.PIPE, stderr=subprocess.STDOUT)
-        if not os.path.exists(os.path.join(d, 'xx_VERIF', 'LC_NUMERIC')):
-            raise BuildError('localedef failed: ' + p.stdout.decode())
-    return _target('locale', mk)
+        for name, cm in (('xx_VERIF', 'charmap'), ('xx_LATIN', 'charmap-latin1')):
+            p = subprocess.run(['localedef', '-c', '-i', os.path.join(src, name), '-f', os.path.join(src, cm), os.path.join(d, name)],
+                               stdout=subprocess.PIPE, stderr=subprocess.STDOUT)
+            if not os.path.exists(os.path.join(d, name, 'LC_NUMERIC')):
+                raise BuildError('localedef failed: ' + p.stdout.decode())
+    return _target('locale2', mk)
 
 
 def macros():
